@@ -783,10 +783,14 @@ fn RingBufferWrite<AllocU8: alloc::Allocator<u8>>(
         .wrapping_add(rb.size_ as usize)
         .wrapping_sub(1)];
     rb.data_mo.slice_mut()[rb.buffer_index.wrapping_sub(1)] = data_1;
-    rb.pos_ = rb.pos_.wrapping_add(n as u32);
-    if rb.pos_ > 1u32 << 30 {
-        rb.pos_ = rb.pos_ & (1u32 << 30).wrapping_sub(1) | 1u32 << 30;
-    }
+    // The position is kept modulo 2^31, the largest ring buffer (lgwin 30 gives a 31-bit mask_),
+    // with bit 31 as the not-a-first-lap marker once it no longer fits.
+    let pos: u64 = (rb.pos_ as u64).wrapping_add(n as u64);
+    rb.pos_ = if pos > 1u64 << 31 {
+        (pos & (1u64 << 31).wrapping_sub(1) | 1u64 << 31) as u32
+    } else {
+        pos as u32
+    };
 }
 
 impl<Alloc: BrotliAlloc> BrotliEncoderStateStruct<Alloc> {
